@@ -443,4 +443,556 @@ Section Ops.
           - intros c' Hne'. rewrite set_log_other by exact Hne'. unfold s1. rewrite spec_append_other by exact Hne'. reflexivity. }
         rewrite Erows in Hgoal |- *. destruct ck as [k|]; [|destruct we]; exact Hgoal.
   Qed.
+
+  (* ---- truncation ---------------------------------------------------------------------------------------------------- *)
+
+  Lemma filter_map_arow (p : N -> bool) rows :
+    filter (fun a => p (m_seq (a_msg a))) (map arow_of rows) = map arow_of (filter (fun r => p (r_seq r)) rows).
+  Proof.
+    induction rows as [|r rows IH]; cbn [map filter]; [reflexivity|].
+    cbn [arow_of a_msg m_seq messageFromRow]. destruct (p (r_seq r)); cbn [map]; rewrite IH; reflexivity.
+  Qed.
+
+  Lemma max_seq_filter_le rows to : max_seq (filter (fun r => r_seq r <=? to) rows) <= to.
+  Proof.
+    apply max_seq_le. apply Forall_forall. intros r Hr. apply filter_In in Hr. apply N.leb_le. apply Hr.
+  Qed.
+
+  Lemma kr_rows p l leo : al_rows (keep_rows p l leo) = filter (fun a => p (m_seq (a_msg a))) (al_rows l).
+  Proof. reflexivity. Qed.
+  Lemma kr_leo p l leo : al_leo (keep_rows p l leo) = leo.
+  Proof. reflexivity. Qed.
+  Lemma kr_ck p l leo : al_ck (keep_rows p l leo) = al_ck l.
+  Proof. reflexivity. Qed.
+  Lemma kr_hist p l leo : al_hist (keep_rows p l leo) = al_hist l.
+  Proof. reflexivity. Qed.
+  Lemma kr_tp p l leo : al_tpairs (keep_rows p l leo) = al_tpairs l.
+  Proof. reflexivity. Qed.
+
+  Lemma trunc_Rkv kv s c rows to retb propb catb :
+    Rkv kv s -> Rchan kv s c rows -> to <= al_leo (as_log s c) ->
+    retentionStateAfterTruncate kv c to = ok retb ->
+    irrelevant_batch propb -> irrelevant_batch catb ->
+    Rkv (kapply kv (propb ++ flat_map (stageDeleteMessage c) (filter (fun r => negb (r_seq r <=? to)) rows) ++ retb ++ catb))
+        (set_log s c (keep_rows (fun q => q <=? to) (as_log s c) to)).
+  Proof.
+    intros HR Rc Hto Hret Hprop Hcat.
+    set (keep := fun r : row => r_seq r <=? to).
+    set (D := filter (fun r => negb (keep r)) rows).
+    set (rows' := filter keep rows).
+    set (s' := set_log s c (keep_rows (fun q => q <=? to) (as_log s c) to)).
+    set (kv1 := kapply kv (flat_map (stageDeleteMessage c) D)).
+    set (kv2 := kapply kv (propb ++ flat_map (stageDeleteMessage c) D ++ retb ++ catb)).
+    change (Rkv kv2 s').
+    assert (W2 : swf kv2) by (apply swf_apply; apply HR).
+    assert (W1 : swf kv1) by (apply swf_apply; apply HR).
+    assert (Hs_tids : as_tids s' = as_tids s) by reflexivity.
+    assert (Hs_other : forall c', c' <> c -> as_log s' c' = as_log s c') by (intros; apply set_log_other; assumption).
+    assert (Hs_c : as_log s' c = keep_rows (fun q => q <=? to) (as_log s c) to) by apply set_log_same.
+    assert (Hs_tp : al_tpairs (as_log s' c) = al_tpairs (as_log s c)) by (rewrite Hs_c; reflexivity).
+    (* the retention state *)
+    pose proof (rc_ret _ _ _ _ Rc) as Hrt. unfold retentionStateAfterTruncate in Hret.
+    set (ret' := match loadRetentionState kv c with
+                 | Some (l, p, rm) => Some (l, p, N.min rm to)
+                 | None => None
+                 end).
+    assert (Hretb : forall k cur, irrelevant k = false ->
+              keff k retb cur = match k with
+                                | KyRet c' => if c' =? c
+                                              then match ret' with Some (l, p, rm) => if to <? match loadRetentionState kv c with Some (_, _, r0) => r0 | None => 0 end then Some (VTriple l p rm) else cur | None => cur end
+                                              else cur
+                                | _ => cur
+                                end).
+    { intros k cur Hk. unfold ret'. destruct (loadRetentionState kv c) as [[[l p] rm]|].
+      - destruct (to <? l); [discriminate|]. destruct (to <? rm) eqn:E.
+        + injection Hret as <-. cbn [keff batch_effect fold_left op_effect].
+          destruct k; cbn [key_eqb]; try reflexivity. destruct (c0 =? c); [|reflexivity].
+          apply N.ltb_lt in E. rewrite N.min_r by lia. reflexivity.
+        + injection Hret as <-. destruct k; try reflexivity. destruct (c0 =? c); reflexivity.
+      - injection Hret as <-. destruct k; try reflexivity. destruct (c0 =? c); reflexivity. }
+    assert (G : forall k, irrelevant k = false -> kget k kv2 = keff k retb (kget k kv1)).
+    { intros k Hk. unfold kv2, kv1. rewrite !kget_apply, !keff_app.
+      rewrite (keff_irrelevant k propb) by assumption. rewrite (keff_irrelevant k catb) by assumption. reflexivity. }
+    assert (Gn : forall k, irrelevant k = false -> (forall c', k <> KyRet c') -> kget k kv2 = kget k kv1).
+    { intros k Hk Hn. rewrite G, Hretb by exact Hk. destruct k; try reflexivity. exfalso. apply (Hn c0). reflexivity. }
+    assert (Hret2 : loadRetentionState kv2 c = ret').
+    { unfold loadRetentionState at 1. rewrite G, Hretb by reflexivity. rewrite N.eqb_refl.
+      assert (Hs1 : kget (KyRet c) kv1 = kget (KyRet c) kv) by (apply (del_sys kv c rows keep); reflexivity). rewrite Hs1.
+      unfold ret'. unfold loadRetentionState.
+      destruct (kget (KyRet c) kv) as [v|] eqn:Gr; [|reflexivity].
+      destruct v as [| | | |l p rm|]; try reflexivity.
+      destruct (to <? rm) eqn:E; [reflexivity|]. apply N.ltb_ge in E. rewrite N.min_l by lia. reflexivity. }
+    assert (Hlt : forall r, In r rows' <-> In r rows /\ r_seq r <= to).
+    { intro r. unfold rows'. rewrite filter_In. unfold keep. rewrite N.leb_le. tauto. }
+    assert (Hget2 : forall q r, kget (KyRow c q) kv2 = Some (VRow r) <-> In r rows' /\ r_seq r = q).
+    { intros q r. rewrite Gn by (reflexivity || discriminate). apply (del_rc_get kv s c rows keep Rc). }
+    constructor.
+    - exact W2.
+    - intro c0. destruct (N.eq_dec c0 c) as [->|Hne].
+      + exists rows'. constructor; rewrite ?Hs_c, ?kr_rows, ?kr_leo, ?kr_ck, ?kr_hist, ?kr_tp.
+        * rewrite (rc_rows _ _ _ _ Rc). apply (filter_map_arow (fun q => q <=? to)).
+        * apply sorted_lt_filter. apply Rc.
+        * exact Hget2.
+        * apply Forall_filter. apply Rc.
+        * (* the recovered log end is [to] *)
+          rewrite (recoverLEO_char _ _ _ W2 Hget2), Hret2. unfold ret'.
+          pose proof (max_seq_filter_le rows to) as Hm. fold keep rows' in Hm.
+          assert (Hex : local_of kv c < to -> max_seq rows' = to).
+          { intro Hl. destruct (rc_contig _ _ _ _ Rc to) as [r [Hr Hs]]; [lia|].
+            apply N.le_antisymm; [exact Hm|]. rewrite <- Hs. apply max_seq_in. apply Hlt. split; [exact Hr|lia]. }
+          unfold local_of in Hex.
+          destruct (loadRetentionState kv c) as [[[l p] rm]|].
+          -- destruct (to <? l) eqn:El; [discriminate|]. apply N.ltb_ge in El.
+             destruct Hrt as [_ [Hlrm _]].
+             destruct (max_seq rows' <? N.min rm to) eqn:E.
+             ++ apply N.ltb_lt in E. destruct (N.eq_dec l to) as [->|Hn]; [lia|].
+                rewrite Hex in E by lia. lia.
+             ++ apply N.ltb_ge in E. destruct (N.eq_dec l to) as [->|Hn]; [lia|]. apply Hex. lia.
+          -- destruct (N.eq_dec to 0) as [->|Hn]; [lia|]. apply Hex. lia.
+        * apply Forall_forall. intros r Hr. apply Hlt in Hr. apply Hr.
+        * rewrite Hret2. unfold ret'. destruct (loadRetentionState kv c) as [[[l p] rm]|]; [|exact I].
+          destruct (to <? l) eqn:El; [discriminate|]. apply N.ltb_ge in El.
+          destruct Hrt as [H1 [H2 [H3 [H4 H5]]]]. repeat split; try assumption; try lia.
+          apply Forall_filter. exact H5.
+        * unfold local_of. rewrite Hret2. intros q Hq.
+          assert (Hl : local_of kv c < q).
+          { unfold local_of, ret' in *. destruct (loadRetentionState kv c) as [[[l p] rm]|]; apply Hq. }
+          destruct (rc_contig _ _ _ _ Rc q) as [r [Hr Hs]]; [lia|].
+          exists r. split; [apply Hlt; split; [exact Hr|lia]|exact Hs].
+        * intros n q. unfold has. rewrite Gn by (reflexivity || discriminate).
+          apply (del_cidx kv s c rows keep Rc).
+        * intros u q. unfold has. rewrite Gn by (reflexivity || discriminate).
+          apply (del_sseq kv s c rows keep Rc).
+        * intros n u q i h. rewrite Gn by (reflexivity || discriminate).
+          apply (del_idem_sound kv s c rows keep Rc).
+        * intros r Hr Hu Hn Ht. rewrite Gn by (reflexivity || discriminate).
+          apply (del_idem_complete kv s s' c rows keep Rc Hs_tp r Hr Hu Hn).
+          rewrite Hs_c. exact Ht.
+        * rewrite (loadCk_ext kv kv2); [apply Rc|]. rewrite Gn by (reflexivity || discriminate).
+          apply (del_sys kv c rows keep). reflexivity.
+        * rewrite (loadHistory_ext kv kv2 c (rk_wf _ _ HR) W2); [apply Rc|].
+          intros o e. rewrite Gn by (reflexivity || discriminate). apply (del_sys kv c rows keep). reflexivity.
+      + destruct (del_Rchan_other kv s s' c rows keep HR Hs_other c0 Hne) as [rows0 Rc0].
+        exists rows0. apply (Rchan_frame kv1 kv2 s' s' c0 rows0 W1 W2); [|reflexivity|exact Rc0].
+        intros k Hk. rewrite G, Hretb by (destruct k; cbn in Hk |- *; try reflexivity; discriminate).
+        destruct k; try reflexivity. cbn [key_of_chan] in Hk. apply N.eqb_eq in Hk. subst.
+        apply N.eqb_neq in Hne. rewrite Hne. reflexivity.
+    - intros i c0 q0 Gg. rewrite Gn in Gg by (reflexivity || discriminate).
+      destruct (del_gid_sound kv s c rows keep HR Rc _ _ _ Gg) as [r [Gr Hi]].
+      exists r. split; [rewrite Gn by (reflexivity || discriminate); exact Gr|exact Hi].
+    - intros c0 q0 r Gr Ht. rewrite Gn in Gr by (reflexivity || discriminate). rewrite Gn by (reflexivity || discriminate).
+      apply (del_gid_complete kv s s' c rows keep HR Rc Hs_tids _ _ _ Gr Ht).
+    - intros c0 q0 v Gr. rewrite Gn in Gr by (reflexivity || discriminate).
+      eapply (del_chans_only kv s c rows keep HR). exact Gr.
+  Qed.
+
+  Lemma trunc_R st s c to retb msgs rows :
+    R st s -> Rchan (st_kv st) s c rows -> to < al_leo (as_log s c) ->
+    retentionStateAfterTruncate (st_kv st) c to = ok retb ->
+    msgs = filter (fun r => negb (r_seq r <=? to)) rows ->
+    R (set_leo F (commit F st (stageTruncateDurableProposals c to ++ flat_map (stageDeleteMessage c) msgs ++ retb ++ stageCatalog c)) c to)
+      (set_log s c (keep_rows (fun q => q <=? to) (as_log s c) to)).
+  Proof.
+    intros HR Rc Hto Hret ->.
+    apply (R_commit_set_leo F st s); [exact HR| | |].
+    - apply trunc_Rkv; [apply HR|exact Rc|lia|exact Hret|apply irrelevant_proposals|apply irrelevant_catalog].
+    - rewrite set_log_same. reflexivity.
+    - intros c' Hne. rewrite set_log_other by exact Hne. reflexivity.
+  Qed.
+
+  Lemma step_trunc st s c f :
+    R st s ->
+    let '(st', r) := TruncateFrom F st c f in
+    sim s (OTrunc c f) st' (out_of r (fun _ => XOk)).
+  Proof.
+    intro HR. unfold TruncateFrom.
+    set (f' := if f =? 0 then 1 else f).
+    assert (Hf : 1 <= f') by (unfold f'; destruct (f =? 0) eqn:E; [lia|apply N.eqb_neq in E; lia]).
+    destruct (loadLEO_R F st s c HR) as [H1 [H2 _]].
+    destruct (loadLEOLocked st c) as [st1 leo]. cbn [fst snd] in H1, H2. subst leo.
+    destruct (al_leo (as_log s c) <? f') eqn:El.
+    - exists s. split; [|exact H2]. cbn [out_of ok spec_mutate]. fold f'. rewrite El. reflexivity.
+    - apply N.ltb_ge in El.
+      destruct (retentionStateAfterTruncate (st_kv st1) c (f' - 1)) as [retb|e] eqn:Eret.
+      2:{ exists s. split; [reflexivity|exact H2]. }
+      destruct H2 as [Hk Hc]. destruct (rk_chan _ _ Hk c) as [rows Rc].
+      rewrite (readForward_all _ _ _ _ f' 0 (rk_wf _ _ Hk) Rc).
+      exists (set_log s c (keep_rows (fun q => q <? f') (as_log s c) (f' - 1))). split.
+      + cbn [out_of ok spec_mutate]. fold f'. apply N.ltb_ge in El. rewrite El. reflexivity.
+      + apply (R_ext _ (set_log s c (keep_rows (fun q => q <=? f' - 1) (as_log s c) (f' - 1)))).
+        * intro c'. destruct (N.eq_dec c' c) as [->|Hne]; [|rewrite !set_log_other by exact Hne; reflexivity].
+          rewrite !set_log_same. unfold keep_rows. f_equal. apply filter_ext. intro a.
+          destruct (m_seq (a_msg a) <? f') eqn:E1; destruct (m_seq (a_msg a) <=? f' - 1) eqn:E2; try reflexivity;
+            [apply N.ltb_lt in E1; apply N.leb_gt in E2; lia|apply N.ltb_ge in E1; apply N.leb_le in E2; lia].
+        * reflexivity.
+        * apply (trunc_R st1 s c (f' - 1) retb _ rows); [split; assumption|exact Rc|lia|exact Eret|].
+          apply filter_ext. intro r. cbn. rewrite ?andb_true_r.
+          destruct (f' <=? r_seq r) eqn:E1; destruct (r_seq r <=? f' - 1) eqn:E2; try reflexivity;
+            [apply N.leb_le in E1; apply N.leb_le in E2; lia|apply N.leb_gt in E1; apply N.leb_gt in E2; lia].
+  Qed.
+
+  Lemma step_ctrunc st s c t :
+    R st s ->
+    let '(st', r) := CTruncate F st c t in
+    sim s (OCTrunc c t) st' (out_of r (fun _ => XOk)).
+  Proof.
+    intro HR. unfold CTruncate.
+    destruct (loadLEO_R F st s c HR) as [H1 [H2 _]].
+    destruct (loadLEOLocked st c) as [st1 leo]. cbn [fst snd] in H1, H2. subst leo.
+    destruct (al_leo (as_log s c) <? t) eqn:El.
+    { exists s. split; [reflexivity|exact H2]. }
+    apply N.ltb_ge in El.
+    destruct (t =? al_leo (as_log s c)) eqn:Ee.
+    { apply N.eqb_eq in Ee. exists s. split; [|exact H2]. cbn [out_of ok spec_mutate].
+      assert (X : (al_leo (as_log s c) <=? t) = true) by (apply N.leb_le; lia). rewrite X. reflexivity. }
+    apply N.eqb_neq in Ee.
+    destruct (retentionStateAfterTruncate (st_kv st1) c t) as [retb|e] eqn:Eret.
+    2:{ exists s. split; [reflexivity|exact H2]. }
+    destruct H2 as [Hk Hc]. destruct (rk_chan _ _ Hk c) as [rows Rc].
+    rewrite (readForward_all _ _ _ _ (t + 1) 0 (rk_wf _ _ Hk) Rc).
+    exists (set_log s c (keep_rows (fun q => q <=? t) (as_log s c) t)). split.
+    - cbn [out_of ok spec_mutate].
+      assert (X : (al_leo (as_log s c) <=? t) = false) by (apply N.leb_gt; lia). rewrite X. reflexivity.
+    - apply (trunc_R st1 s c t retb _ rows); [split; assumption|exact Rc|lia|exact Eret|].
+      apply filter_ext. intro r. cbn. rewrite ?andb_true_r.
+      destruct (t + 1 <=? r_seq r) eqn:E1; destruct (r_seq r <=? t) eqn:E2; try reflexivity;
+        [apply N.leb_le in E1; apply N.leb_le in E2; lia|apply N.leb_gt in E1; apply N.leb_gt in E2; lia].
+  Qed.
+
+  (* ---- deleting rows and rewriting the retention state, in general ------------------------------------------ *)
+
+  Lemma del_Rkv_gen kv s c rows (keep : row -> bool) b newret leo' :
+    Rkv kv s -> Rchan kv s c rows ->
+    let kv1 := kapply kv (flat_map (stageDeleteMessage c) (filter (fun r => negb (keep r)) rows)) in
+    let rows' := filter keep rows in
+    let s' := set_log s c (AL (map arow_of rows') leo' (al_ck (as_log s c)) (al_hist (as_log s c)) (al_tpairs (as_log s c))) in
+    (forall k, irrelevant k = false -> (forall c', k <> KyRet c') -> kget k (kapply kv b) = kget k kv1) ->
+    (forall c', c' <> c -> kget (KyRet c') (kapply kv b) = kget (KyRet c') kv) ->
+    loadRetentionState (kapply kv b) c = newret ->
+    (match newret with
+     | Some (_, _, rm) => if max_seq rows' <? rm then rm else max_seq rows'
+     | None => max_seq rows'
+     end) = leo' ->
+    Forall (fun r => r_seq r <= leo') rows' ->
+    match newret with
+    | Some (l, p, rm) => p <= l /\ l <= rm /\ rm <= leo' /\ l <> 0 /\ Forall (fun r => p < r_seq r) rows'
+    | None => True
+    end ->
+    (forall q, match newret with Some (l, _, _) => l | None => 0 end < q <= leo' -> exists r, In r rows' /\ r_seq r = q) ->
+    Rkv (kapply kv b) s'.
+  Proof.
+    intros HR Rc kv1 rows' s' Gn Gret Hret2 Hleo Hle Hrt Hcontig.
+    set (kv2 := kapply kv b).
+    assert (W2 : swf kv2) by (apply swf_apply; apply HR).
+    assert (W1 : swf kv1) by (apply swf_apply; apply HR).
+    assert (Hs_tids : as_tids s' = as_tids s) by reflexivity.
+    assert (Hs_other : forall c', c' <> c -> as_log s' c' = as_log s c') by (intros; apply set_log_other; assumption).
+    assert (Hs_c : as_log s' c = AL (map arow_of rows') leo' (al_ck (as_log s c)) (al_hist (as_log s c)) (al_tpairs (as_log s c)))
+      by apply set_log_same.
+    assert (Hs_tp : al_tpairs (as_log s' c) = al_tpairs (as_log s c)) by (rewrite Hs_c; reflexivity).
+    assert (Hget2 : forall q r, kget (KyRow c q) kv2 = Some (VRow r) <-> In r rows' /\ r_seq r = q).
+    { intros q r. unfold kv2. rewrite Gn by (reflexivity || discriminate). apply (del_rc_get kv s c rows keep Rc). }
+    constructor.
+    - exact W2.
+    - intro c0. destruct (N.eq_dec c0 c) as [->|Hne].
+      + exists rows'. constructor; rewrite ?Hs_c; cbn [al_rows al_leo al_ck al_hist al_tpairs].
+        * reflexivity.
+        * apply sorted_lt_filter. apply Rc.
+        * exact Hget2.
+        * apply Forall_filter. apply Rc.
+        * rewrite (recoverLEO_char _ _ _ W2 Hget2). fold kv2 in Hret2. rewrite Hret2. exact Hleo.
+        * exact Hle.
+        * fold kv2 in Hret2. rewrite Hret2. exact Hrt.
+        * unfold local_of. fold kv2 in Hret2. rewrite Hret2. exact Hcontig.
+        * intros n q. unfold has, kv2. rewrite Gn by (reflexivity || discriminate). apply (del_cidx kv s c rows keep Rc).
+        * intros u q. unfold has, kv2. rewrite Gn by (reflexivity || discriminate). apply (del_sseq kv s c rows keep Rc).
+        * intros n u q i h. unfold kv2. rewrite Gn by (reflexivity || discriminate). apply (del_idem_sound kv s c rows keep Rc).
+        * intros r Hr Hu Hn Ht. unfold kv2. rewrite Gn by (reflexivity || discriminate).
+          apply (del_idem_complete kv s s' c rows keep Rc Hs_tp r Hr Hu Hn). rewrite Hs_c. exact Ht.
+        * rewrite (loadCk_ext kv kv2); [apply Rc|]. unfold kv2. rewrite Gn by (reflexivity || discriminate).
+          apply (del_sys kv c rows keep). reflexivity.
+        * rewrite (loadHistory_ext kv kv2 c (rk_wf _ _ HR) W2); [apply Rc|].
+          intros o e. unfold kv2. rewrite Gn by (reflexivity || discriminate). apply (del_sys kv c rows keep). reflexivity.
+      + destruct (del_Rchan_other kv s s' c rows keep HR Hs_other c0 Hne) as [rows0 Rc0].
+        exists rows0. apply (Rchan_frame kv1 kv2 s' s' c0 rows0 W1 W2); [|reflexivity|exact Rc0].
+        intros k Hk. destruct k; cbn [key_of_chan] in Hk; try discriminate; apply N.eqb_eq in Hk; subst;
+          try (unfold kv2; apply Gn; [reflexivity|discriminate]).
+        unfold kv2. rewrite Gret by exact Hne. symmetry. apply (del_sys kv c rows keep). reflexivity.
+    - intros i c0 q0 Gg. unfold kv2 in Gg. rewrite Gn in Gg by (reflexivity || discriminate).
+      destruct (del_gid_sound kv s c rows keep HR Rc _ _ _ Gg) as [r [Gr Hi]].
+      exists r. split; [unfold kv2; rewrite Gn by (reflexivity || discriminate); exact Gr|exact Hi].
+    - intros c0 q0 r Gr Ht. unfold kv2 in *. rewrite Gn in Gr by (reflexivity || discriminate). rewrite Gn by (reflexivity || discriminate).
+      apply (del_gid_complete kv s s' c rows keep HR Rc Hs_tids _ _ _ Gr Ht).
+    - intros c0 q0 v Gr. unfold kv2 in Gr. rewrite Gn in Gr by (reflexivity || discriminate).
+      eapply (del_chans_only kv s c rows keep HR). exact Gr.
+  Qed.
+
+  (* ---- prefix trim ------------------------------------------------------------------------------------------------ *)
+
+  (* what the read loop returns is a prefix; if something is left, a budget stopped it *)
+  Lemma read_loop_prefix c l : Forall (row_ok c) l -> forall lim mb acc total X,
+    read_loop l lim mb acc total = ok X ->
+    exists X' Y, X = rev acc ++ X' /\ l = X' ++ Y
+      /\ (Y <> [] -> ((0 < lim)%Z /\ (lim <= Z.of_nat (length acc + length X'))%Z)
+                     \/ ((0 < mb)%Z /\ (acc <> [] \/ X' <> []))).
+  Proof.
+    induction 1 as [|r l Hr Hl IH]; intros lim mb acc total X HX; cbn [read_loop] in HX.
+    - injection HX as <-. exists [], []. rewrite app_nil_r. split; [reflexivity|]. split; [reflexivity|]. intro H; contradiction.
+    - rewrite (row_ok_valid _ _ Hr) in HX.
+      destruct ((0 <? mb)%Z && negb (is_nil_rows acc) && (mb <? total + Z.of_nat (length (r_payload r)))%Z) eqn:E1.
+      + injection HX as <-. exists [], (r :: l). rewrite app_nil_r. split; [reflexivity|]. split; [reflexivity|].
+        intros _. right. apply andb_true_iff in E1. destruct E1 as [E1 _]. apply andb_true_iff in E1. destruct E1 as [E1 E2].
+        split; [apply Z.ltb_lt; exact E1|]. left. destruct acc; [discriminate|discriminate].
+      + destruct ((0 <? lim)%Z && (lim <=? Z.of_nat (length (r :: acc)))%Z) eqn:E2.
+        * injection HX as <-. exists [r], l. cbn [rev]. split; [reflexivity|]. split; [reflexivity|].
+          intros _. left. apply andb_true_iff in E2. destruct E2 as [E2 E3]. apply Z.ltb_lt in E2. apply Z.leb_le in E3.
+          split; [exact E2|]. cbn [length] in E3 |- *. lia.
+        * destruct (IH _ _ _ _ _ HX) as [X' [Y [H1 [H2 H3]]]].
+          exists (r :: X'), Y. cbn [rev] in H1. rewrite <- app_assoc in H1. split; [exact H1|]. split; [cbn [app]; rewrite H2; reflexivity|].
+          intro Hy. destruct (H3 Hy) as [[Ha Hb]|[Ha Hb]].
+          -- left. split; [exact Ha|]. cbn [length] in Hb |- *. lia.
+          -- right. split; [exact Ha|]. right. discriminate.
+  Qed.
+
+  Lemma filter_none {A} (p : A -> bool) l : (forall x, In x l -> p x = false) -> filter p l = [].
+  Proof.
+    induction l as [|x l IH]; intro H; cbn [filter]; [reflexivity|].
+    rewrite (H x (or_introl eq_refl)). apply IH. intros y Hy. apply H. right. exact Hy.
+  Qed.
+
+  (* a sorted log split at a prefix *)
+  Lemma sorted_split (P S : list row) dt :
+    sorted_lt r_seq (P ++ S) -> Forall (fun r => 1 <= r_seq r) (P ++ S) -> dt = last_seq P ->
+    filter (fun r => negb (dt <? r_seq r)) (P ++ S) = P /\ filter (fun r => dt <? r_seq r) (P ++ S) = S.
+  Proof.
+    intros Hs Hpos ->.
+    assert (HP : forall r, In r P -> r_seq r <= last_seq P).
+    { intros r Hr. unfold last_seq. destruct (rev P) as [|z zs] eqn:Er.
+      - apply in_rev in Hr. rewrite Er in Hr. destruct Hr.
+      - apply in_rev in Hr. rewrite Er in Hr. destruct Hr as [<-|Hr]; [lia|].
+        (* r is before z in P *)
+        assert (HPz : P = rev zs ++ [z]) by (rewrite <- (rev_involutive P), Er; reflexivity).
+        rewrite HPz in Hs. rewrite <- app_assoc in Hs. apply in_rev in Hr.
+        clear - Hs Hr. unfold sorted_lt in Hs. induction (rev zs) as [|y ys IH]; [destruct Hr|].
+        cbn [app] in Hs. inversion Hs as [|? ? Hs' Ha]; subst. destruct Hr as [<-|Hr].
+        + assert (In z (ys ++ [z] ++ S)) by (apply in_or_app; right; left; reflexivity).
+          eapply Forall_forall in Ha; [|eassumption]. lia.
+        + apply IH; assumption. }
+    assert (HS : forall r, In r S -> last_seq P < r_seq r).
+    { intros r Hr. unfold last_seq. destruct (rev P) as [|z zs] eqn:Er.
+      - eapply Forall_forall in Hpos; [|apply in_or_app; right; exact Hr]. lia.
+      - assert (HPz : P = rev zs ++ [z]) by (rewrite <- (rev_involutive P), Er; reflexivity).
+        rewrite HPz in Hs. rewrite <- app_assoc in Hs.
+        clear - Hs Hr. unfold sorted_lt in Hs. induction (rev zs) as [|y ys IH].
+        + cbn [app] in Hs. inversion Hs as [|? ? _ Ha]; subst. eapply Forall_forall in Ha; [|exact Hr]. exact Ha.
+        + cbn [app] in Hs. inversion Hs; subst. apply IH. assumption. }
+    rewrite !filter_app. split.
+    - rewrite (forallb_filter_id _ P), (filter_none _ S); [apply app_nil_r| |].
+      + intros r Hr. apply negb_false_iff. apply N.ltb_lt. apply HS. exact Hr.
+      + apply forallb_forall. intros r Hr. apply negb_true_iff. apply N.ltb_ge. apply HP. exact Hr.
+    - rewrite (filter_none _ P), (forallb_filter_id _ S); [reflexivity| |].
+      + apply forallb_forall. intros r Hr. apply N.ltb_lt. apply HS. exact Hr.
+      + intros r Hr. apply N.ltb_ge. apply HP. exact Hr.
+  Qed.
+
+  Lemma sorted_filter_split rows t : sorted_lt r_seq rows ->
+    rows = filter (fun r => r_seq r <=? t) rows ++ filter (fun r => negb (r_seq r <=? t)) rows.
+  Proof.
+    unfold sorted_lt. induction 1 as [|x l Hs IH Ha]; [reflexivity|]. cbn [filter].
+    destruct (r_seq x <=? t) eqn:E; cbn [negb app].
+    - f_equal. exact IH.
+    - (* everything after x is larger *)
+      apply N.leb_gt in E.
+      rewrite (filter_none (fun r => r_seq r <=? t) l), (forallb_filter_id _ l); [reflexivity| |].
+      + apply forallb_forall. intros y Hy. eapply Forall_forall in Ha; [|exact Hy]. apply negb_true_iff. apply N.leb_gt. lia.
+      + intros y Hy. eapply Forall_forall in Ha; [|exact Hy]. apply N.leb_gt. lia.
+  Qed.
+
+  Lemma last_seq_in P : P <> [] -> exists r, In r P /\ r_seq r = last_seq P.
+  Proof.
+    intro H. unfold last_seq. destruct (rev P) as [|z zs] eqn:E.
+    - exfalso. apply H. rewrite <- (rev_involutive P), E. reflexivity.
+    - exists z. split; [apply in_rev; rewrite E; left; reflexivity|reflexivity].
+  Qed.
+
+  Lemma last_seq_map P : match rev (map arow_of P) with a :: _ => m_seq (a_msg a) | [] => 0 end = last_seq P.
+  Proof. unfold last_seq. rewrite <- map_rev. destruct (rev P); reflexivity. Qed.
+
+  Lemma firstn_len_app {A} (l1 l2 : list A) : firstn (length l1) (l1 ++ l2) = l1.
+  Proof. induction l1 as [|x l1 IH]; cbn [length firstn app]; [reflexivity|]. rewrite IH. reflexivity. Qed.
+
+  Lemma skipn_len_app {A} (l1 l2 : list A) : skipn (length l1) (l1 ++ l2) = l2.
+  Proof. induction l1 as [|x l1 IH]; cbn [length skipn app]; [reflexivity|]. exact IH. Qed.
+
+  Lemma step_trim st s c t mm mb :
+    R st s ->
+    let '(st', r) := TrimPrefixThroughLimit F st c t mm mb in
+    sim s (OTrim c t mm mb) st' (out_of r (fun x => let '(d, n, m) := x in XTrim d n m)).
+  Proof.
+    intro HR. unfold TrimPrefixThroughLimit.
+    destruct (t =? 0) eqn:Et.
+    { exists s. split; [cbn [out_of ok spec_mutate]; rewrite Et; reflexivity|exact HR]. }
+    apply N.eqb_neq in Et.
+    destruct (loadLEO_R F st s c HR) as [H1 [H2 _]].
+    destruct (loadLEOLocked st c) as [st1 leo]. cbn [fst snd] in H1, H2. subst leo.
+    destruct H2 as [Hk Hc]. destruct (rk_chan _ _ Hk c) as [rows Rc].
+    set (leo := al_leo (as_log s c)).
+    (* the retention state, absent = zeros *)
+    pose proof (rc_ret _ _ _ _ Rc) as Hrt. fold leo in Hrt.
+    set (ret3 := match loadRetentionState (st_kv st1) c with Some x => x | None => (0, 0, 0) end).
+    assert (Hret3 : exists l0 p0 r0, ret3 = (l0, p0, r0) /\ p0 <= l0 /\ l0 <= r0 /\ r0 <= leo
+                    /\ Forall (fun r => p0 < r_seq r) rows /\ local_of (st_kv st1) c = l0).
+    { unfold ret3, local_of. destruct (loadRetentionState (st_kv st1) c) as [[[l p] rm]|].
+      - exists l, p, rm. destruct Hrt as [A [B [C [_ D]]]]. repeat split; assumption.
+      - exists 0, 0, 0. repeat split; try lia.
+        eapply Forall_impl; [|apply (rc_ok _ _ _ _ Rc)]. intros r [_ [_ [_ H]]]. lia. }
+    destruct Hret3 as [l0 [p0 [r0 [Er3 [Hpl [Hlr [Hrl [Hp0 Hloc]]]]]]]]. rewrite Er3.
+    (* what is read: a prefix of the rows at or below [t] *)
+    set (A := filter (fun r => r_seq r <=? t) rows).
+    set (B := filter (fun r => negb (r_seq r <=? t)) rows).
+    assert (HAB : rows = A ++ B) by (apply sorted_filter_split; apply Rc).
+    set (limit := if (0 <? mm)%Z then (mm + 1)%Z else 0%Z).
+    assert (Hrd : readForward (st_kv st1) c (p0 + 1) t limit mb = read_loop A limit mb [] 0%Z).
+    { unfold readForward. rewrite (Rchan_rows_of _ _ _ _ (rk_wf _ _ Hk) Rc). f_equal. unfold A.
+      apply filter_ext_in. intros r Hr. eapply Forall_forall in Hp0; [|exact Hr].
+      assert (E1 : (p0 + 1 <=? r_seq r) = true) by (apply N.leb_le; lia).
+      assert (E2 : (t =? 0) = false) by (apply N.eqb_neq; exact Et). rewrite E1, E2. reflexivity. }
+    rewrite Hrd.
+    assert (HokA : Forall (row_ok c) A) by (apply Forall_filter; apply Rc).
+    destruct (read_loop_take c A HokA limit mb [] 0%Z) as [X [HX _]]. cbn [rev app] in HX. rewrite HX.
+    destruct (read_loop_prefix c A HokA limit mb [] 0%Z X HX) as [X' [Y [EX [EA Hstop]]]].
+    cbn [rev app] in EX. subst X'. cbn [length Nat.add] in Hstop.
+    (* the deleted rows *)
+    set (more1 := (0 <? mm)%Z && (mm <? Z.of_nat (length X))%Z).
+    set (P := if more1 then firstn_rows mm X else X).
+    assert (HPX : exists X2, X = P ++ X2).
+    { unfold P. destruct more1; [exists (skipn (Z.to_nat mm) X); unfold firstn_rows; symmetry; apply firstn_skipn|exists []; symmetry; apply app_nil_r]. }
+    destruct HPX as [X2 EXP].
+    set (S := X2 ++ Y ++ B).
+    assert (Hrows : rows = P ++ S) by (unfold S; rewrite HAB, EA, EXP, <- !app_assoc; reflexivity).
+    set (more2 := (0 <? mb)%Z && match rev P with r :: _ => r_seq r <? t | [] => false end).
+    set (more := more1 || more2).
+    set (dt := last_seq P).
+    set (l1 := N.max l0 t). set (r1 := N.max (N.max r0 t) leo).
+    set (p1 := if negb more && (p0 <? t) then t else if p0 <? dt then dt else p0).
+    assert (Hpos : Forall (fun r => 1 <= r_seq r) rows).
+    { eapply Forall_impl; [|apply (rc_ok _ _ _ _ Rc)]. intros r [_ [_ [_ H]]]. exact H. }
+    assert (Hsrt : sorted_lt r_seq (P ++ S)) by (rewrite <- Hrows; apply Rc).
+    destruct (sorted_split P S dt Hsrt ltac:(rewrite <- Hrows; exact Hpos) eq_refl) as [HfP HfS].
+    rewrite <- Hrows in HfP, HfS.
+    assert (HinA : forall r, In r A -> In r rows /\ r_seq r <= t).
+    { intros r Hr. unfold A in Hr. apply filter_In in Hr. destruct Hr as [Hr Hle]. apply N.leb_le in Hle. split; assumption. }
+    assert (HPA : forall r, In r P -> In r rows /\ r_seq r <= t).
+    { intros r Hr. apply HinA. rewrite EA, EXP. apply in_or_app. left. apply in_or_app. left. exact Hr. }
+    assert (HB : forall r, In r B -> t < r_seq r).
+    { intros r Hr. unfold B in Hr. apply filter_In in Hr. destruct Hr as [_ Hr]. apply negb_true_iff in Hr. apply N.leb_gt. exact Hr. }
+    assert (Hdt : dt <= t).
+    { unfold dt. destruct P as [|z zs] eqn:EP; [unfold last_seq; cbn; lia|].
+      destruct (last_seq_in (z :: zs)) as [r [Hr Hs]]; [discriminate|]. rewrite <- Hs. apply HPA. exact Hr. }
+    (* no budget stopped the read: everything at or below [t] is deleted *)
+    assert (Hnomore : more = false -> X2 = [] /\ Y = []).
+    { intro Hm. unfold more in Hm. apply orb_false_iff in Hm. destruct Hm as [Hm1 Hm2].
+      assert (EP : P = X) by (unfold P; rewrite Hm1; reflexivity).
+      assert (EX2 : X2 = []).
+      { rewrite EP in EXP. destruct X2; [reflexivity|]. exfalso.
+        assert (L : length X = length (X ++ r :: X2)) by (rewrite <- EXP; reflexivity).
+        rewrite app_length in L. cbn [length] in L. lia. }
+      split; [exact EX2|]. destruct Y as [|y Y']; [reflexivity|]. exfalso.
+      destruct Hstop as [[Ha Hb]|[Ha Hb]]; [discriminate| |].
+      - (* count budget: then more1 *)
+        unfold limit in Ha, Hb. destruct (0 <? mm)%Z eqn:E0; [|lia].
+        unfold more1 in Hm1. rewrite ?E0 in Hm1. cbn [andb] in Hm1. apply Z.ltb_ge in Hm1. lia.
+      - (* byte budget: then more2 *)
+        destruct Hb as [Hb|Hb]; [contradiction|].
+        unfold more2 in Hm2. apply Z.ltb_lt in Ha. rewrite Ha in Hm2. cbn [andb] in Hm2. rewrite EP in Hm2.
+        destruct (rev X) as [|z zs] eqn:Er.
+        + apply Hb. rewrite <- (rev_involutive X), Er. reflexivity.
+        + apply N.ltb_ge in Hm2.
+          (* z is the last row of X, y the next row of A *)
+          assert (HXz : X = rev zs ++ [z]) by (rewrite <- (rev_involutive X), Er; reflexivity).
+          assert (Hy : In y A) by (rewrite EA; apply in_or_app; right; left; reflexivity).
+          assert (Hzy : r_seq z < r_seq y).
+          { assert (HsA : sorted_lt r_seq A) by (apply sorted_lt_filter; apply Rc).
+            rewrite EA, HXz, <- app_assoc in HsA. clear - HsA. unfold sorted_lt in HsA.
+            induction (rev zs) as [|w ws IH]; cbn [app] in HsA.
+            - inversion HsA as [|? ? _ Ha]; subst. inversion Ha; subst. assumption.
+            - inversion HsA; subst. apply IH. assumption. }
+          apply HinA in Hy. lia. }
+    (* the new log *)
+    cbv zeta.
+    change (if (0 <? mm)%Z && (mm <? Z.of_nat (length X))%Z then firstn_rows mm X else X) with P.
+    change ((0 <? mm)%Z && (mm <? Z.of_nat (length X))%Z) with more1.
+    change ((0 <? mb)%Z && match rev P with r :: _ => r_seq r <? t | [] => false end) with more2.
+    change (more1 || more2) with more.
+    change (last_seq P) with dt.
+    change (N.max l0 t) with l1. change (N.max (N.max r0 t) (al_leo (as_log s c))) with r1.
+    change (if negb more && (p0 <? t) then t else if p0 <? dt then dt else p0) with p1.
+    exists (set_log s c (AL (map arow_of S) (N.max leo t) (al_ck (as_log s c)) (al_hist (as_log s c)) (al_tpairs (as_log s c)))).
+    split.
+    - cbn [out_of ok spec_mutate].
+      assert (E0 : (t =? 0) = false) by (apply N.eqb_neq; exact Et). rewrite E0.
+      change (if (0 <? mm)%Z && (mm <? Z.of_nat (length X))%Z then firstn_rows mm X else X) with P.
+      change ((0 <? mm)%Z && (mm <? Z.of_nat (length X))%Z) with more1.
+      change ((0 <? mb)%Z && match rev P with r :: _ => r_seq r <? t | [] => false end) with more2.
+      change (more1 || more2) with more.
+      rewrite (rc_rows _ _ _ _ Rc), Hrows, map_app, Nat2N.id.
+      rewrite <- (map_length arow_of P). rewrite firstn_len_app, skipn_len_app.
+      rewrite map_length, Nat.eqb_refl, last_seq_map, N.eqb_refl. cbn [andb].
+      assert (C1 : all_le t (map arow_of P) = true).
+      { unfold all_le. apply forallb_forall. intros a Ha. apply in_map_iff in Ha. destruct Ha as [r [<- Hr]].
+        cbn. apply N.leb_le. apply HPA. exact Hr. }
+      assert (C2 : (more || none_le t (map arow_of S)) = true).
+      { destruct more eqn:Em; [reflexivity|]. destruct (Hnomore eq_refl) as [-> ->]. cbn [orb].
+        unfold none_le. apply forallb_forall. intros a Ha. apply in_map_iff in Ha. destruct Ha as [r [<- Hr]].
+        cbn. apply negb_true_iff. apply N.leb_gt. apply HB. exact Hr. }
+      assert (C3 : (negb (0 <? mm)%Z || (Z.of_N (N.of_nat (length P)) <=? mm)%Z) = true).
+      { destruct (0 <? mm)%Z eqn:E1; [|reflexivity]. cbn [negb orb]. apply Z.leb_le. rewrite nat_N_Z.
+        unfold P. destruct more1 eqn:Em1.
+        - unfold firstn_rows. rewrite firstn_length. lia.
+        - unfold more1 in Em1. rewrite ?E1 in Em1. cbn [andb] in Em1. apply Z.ltb_ge in Em1. exact Em1. }
+      fold more. rewrite C1, C2, C3. reflexivity.
+    - (* the relation *)
+      set (b := flat_map (stageDeleteMessage c) P ++ [Put (KyRet c) (VTriple l1 p1 r1)] ++ stageCatalog c).
+      apply (R_commit_set_leo F st1 s _ c b (N.max leo r1)); [split; assumption| | |].
+      + pose proof (del_Rkv_gen (st_kv st1) s c rows (fun r => dt <? r_seq r) b (Some (l1, p1, r1)) (N.max leo t) Hk Rc) as G.
+        cbv beta zeta in G. rewrite HfP, HfS in G. apply G; clear G.
+        * intros k Hk0 Hn. unfold b. rewrite !kget_apply, !keff_app.
+          rewrite (keff_irrelevant k (stageCatalog c)) by (apply irrelevant_catalog || exact Hk0).
+          cbn [keff batch_effect fold_left op_effect].
+          destruct (key_eqb k (KyRet c)) eqn:Ek; [apply key_eqb_eq in Ek; exfalso; apply (Hn c); exact Ek|reflexivity].
+        * intros c' Hne. unfold b. rewrite !kget_apply, !keff_app.
+          rewrite (keff_irrelevant _ (stageCatalog c)) by (apply irrelevant_catalog || reflexivity).
+          cbn [keff batch_effect fold_left op_effect key_eqb]. apply N.eqb_neq in Hne. rewrite Hne.
+          rewrite keff_delete_rows. destruct (existsb _ _) eqn:Ex; [|reflexivity].
+          exfalso. apply existsb_key_in in Ex. apply in_deleted_keys in Ex. destruct Ex as [d [_ Hkd]].
+          apply in_row_del_keys in Hkd. exact Hkd.
+        * unfold loadRetentionState, b. rewrite !kget_apply, !keff_app.
+          rewrite (keff_irrelevant _ (stageCatalog c)) by (apply irrelevant_catalog || reflexivity).
+          cbn [keff batch_effect fold_left op_effect]. rewrite key_eqb_refl. reflexivity.
+        * assert (HmS : max_seq S <= leo).
+          { apply max_seq_le. apply Forall_forall. intros r Hr.
+            pose proof (rc_le_leo _ _ _ _ Rc) as Hle. eapply Forall_forall in Hle; [exact Hle|]. rewrite Hrows. apply in_or_app. right. exact Hr. }
+          unfold r1. destruct (max_seq S <? N.max (N.max r0 t) leo) eqn:E; [lia|]. apply N.ltb_ge in E. lia.
+        * apply Forall_forall. intros r Hr.
+          pose proof (rc_le_leo _ _ _ _ Rc) as Hle. eapply Forall_forall in Hle; [|rewrite Hrows; apply in_or_app; right; exact Hr].
+          fold leo in Hle. lia.
+        * unfold l1, r1, p1. repeat split; try lia.
+          -- destruct (negb more && (p0 <? t)); [lia|]. destruct (p0 <? dt) eqn:E; [|lia]. lia.
+          -- apply Forall_forall. intros r Hr.
+             assert (Hrs : dt < r_seq r).
+             { assert (X0 : In r (filter (fun r => dt <? r_seq r) rows)) by (rewrite HfS; exact Hr).
+               apply filter_In in X0. apply N.ltb_lt. apply X0. }
+             assert (Hrp : p0 < r_seq r).
+             { eapply Forall_forall in Hp0; [exact Hp0|]. rewrite Hrows. apply in_or_app. right. exact Hr. }
+             destruct (negb more && (p0 <? t)) eqn:E.
+             ++ apply andb_true_iff in E. destruct E as [E _]. apply negb_true_iff in E.
+                destruct (Hnomore E) as [EX2 EY]. unfold S in Hr. rewrite EX2, EY in Hr. cbn [app] in Hr. apply HB. exact Hr.
+             ++ destruct (p0 <? dt); lia.
+        * intros q Hq. unfold l1 in Hq.
+          destruct (rc_contig _ _ _ _ Rc q) as [r [Hr Hs]]; [rewrite Hloc; fold leo; lia|].
+          exists r. split; [|exact Hs]. rewrite Hrows in Hr. apply in_app_or in Hr. destruct Hr as [Hr|Hr]; [|exact Hr].
+          exfalso. apply HPA in Hr. lia.
+      + rewrite set_log_same. cbn [al_leo]. unfold r1. lia.
+      + intros c' Hne. rewrite set_log_other by exact Hne. reflexivity.
+  Qed.
 End Ops.
